@@ -1,5 +1,6 @@
 import Pcore.Proofs.LatWeaken
 import Pcore.Proofs.LatRuntime
+import Pcore.Proofs.LatCallable
 import Pcore.Proofs.LatStruct
 set_option linter.unusedSimpArgs false
 set_option linter.unusedVariables false
@@ -17,11 +18,14 @@ def Ty.NoAlias (t : Ty) : Prop :=
   | .struct ms => ∀ m, ∀ (_ : m ∈ ms), Ty.NoAlias m.2.2
   | .variant ts => ∀ t', ∀ (_ : t' ∈ ts), Ty.NoAlias t'
   | .optional t' | .notUndef t' | .sensitive t' | .iterator t' | .typ t' | .iterable t' => Ty.NoAlias t'
+  | .callable p r k =>
+      (match p with | none => True | some t' => Ty.NoAlias t') ∧ (match r with | none => True | some t' => Ty.NoAlias t') ∧
+      (match k with | none => True | some t' => Ty.NoAlias t')
   | _ => True
 termination_by t.w
 decreasing_by
   all_goals simp_wf
-  all_goals (try simp only [Ty.w, Ty.wl, Ty.wm] at *)
+  all_goals (try simp only [Ty.w, Ty.wl, Ty.wm, Ty.wo] at *)
   all_goals first
     | omega
     | (have := Ty.w_lt_wl ‹_ ∈ _›; omega)
@@ -150,6 +154,13 @@ theorem asg_refl : ∀ (n : Nat) (a : Ty), a.w ≤ n → Ty.WF cfg a → a.NoAli
     cases a with
     | any => exact asg_any_l cfg sfh _
     | unit => exact asg_unit_r cfg sfh _
+    | callable p r k =>
+      unfold Ty.WF at hwf; unfold Ty.NoAlias at hna; simp only [Ty.w, Ty.wo] at hw
+      apply viaRecv rfl; rw [recv_callable_eq]
+      apply callAcc_refl
+      · intro t ht; subst ht; simp only [Ty.wo] at hw; exact ih t (by omega) hwf.1 hna.1
+      · intro t ht; subst ht; simp only [Ty.wo] at hw; exact ih t (by omega) hwf.2.1 hna.2.1
+      · intro t ht; subst ht; simp only [Ty.wo] at hw; exact ih t (by omega) hwf.2.2 hna.2.2
     | undef => exact asg_undef_undef cfg sfh
     | dflt => rw [asg_plain_r cfg sfh _ _ rfl]; simp [sameNullary]
     | scalar => rw [asg_plain_r cfg sfh _ _ rfl]; simp [sameNullary]
